@@ -47,6 +47,7 @@ class X86Exec:
                     env['%s.%s' % (p['name'], fld)] = kb
             elif a is not None:
                 env[p['id']] = a
+        env.update(getattr(self, 'env_extra', {}))
         ev = KBEval(self.F, env, 0, self.overrides)
         self._stmt(f, f['body'], ev, depth)
 
@@ -78,6 +79,28 @@ class X86Exec:
             return True
         if k == 'Break':
             return 'break'
+        if k in ('While', 'For', 'Do'):
+            # a loop over constants (e.g. computing a bit position): unrolled, every test must be decided
+            if k == 'For' and astq.is_node(s.get('init')):
+                self._stmt(f, s['init'], ev, depth) if s['init']['k'] in ('Decl',) else ev._exec(strip_all(s['init']), [])
+            for it in range(130):
+                if not (k == 'Do' and it == 0) and astq.is_node(s.get('c')):
+                    c = val(s['c'])
+                    if c is None:
+                        c = ev.ev(s['c']).value()
+                    if c is None:
+                        raise AnalysisBroken('X86-HSEM: loop condition %s at %s is not decided by the instruction fields' % (show(s['c'])[:60], loc(s, f)))
+                    if not c:
+                        return
+                r_ = self._stmt(f, s['b'], ev, depth)
+                if r_ == 'break':
+                    return
+                if r_:
+                    return r_
+                if k == 'For' and astq.is_node(s.get('inc')):
+                    ev._exec(strip_all(s['inc']), [])
+                    self._unary(strip_all(s['inc']), ev)
+            raise AnalysisBroken('X86-HSEM: loop at %s does not finish within 130 iterations for constant fields' % loc(s, f))
         if k == 'Switch':
             cn = strip_all(s['c'])
             while cn['k'] == 'Cast' and type_info(cn.get('ty')) is None:
@@ -144,6 +167,7 @@ class X86Exec:
                 for prm, a in zip(g['params'], top['a']):
                     args.append(ev.ev(a) if type_info(prm.get('ty')) is not None else None)
                 sub_ = X86Exec(self.F, self.cls, self.fields, self.overrides)
+                sub_.env_extra = getattr(self, 'env_extra', {})
                 sub_.run(g, args, depth + 1)
                 self.bytes += sub_.bytes
                 return
@@ -152,10 +176,19 @@ class X86Exec:
             ev._exec(top, [])
             return
         if top['k'] == 'Un':
+            self._unary(top, ev)
             return
         if not any(c.get('name') not in ('__assert_fail', '__builtin_expect') for c in astq.calls(top)):
             return
         raise AnalysisBroken('X86-HSEM: unsupported statement %s at %s' % (show(top)[:60], loc(s, f)))
+
+    def _unary(self, top, ev):
+        if top['k'] == 'Un' and ('++' in top.get('op', '') or '--' in top.get('op', '')):
+            e = strip_all(top['e'])
+            if e['k'] == 'Ref' and e.get('id') in ev.env:
+                cur = ev.env[e['id']]
+                one = KB.const(cur.w, 1)
+                ev.env[e['id']] = cur.add(one) if '++' in top['op'] else cur.sub(one)
 
 
 def _labels(st):
@@ -301,6 +334,13 @@ class Machine:
                     return False
                 amt = b
             self.r[REG64[o[0]]] = ror(a, amt if mn == 'ror' else neg(amt))
+            return True
+        if mn in ('shl', 'sal', 'shr') and len(o) == 2 and o[0] in REG64:
+            b = self.operand(o[1]) if o[1] != 'cl' else None
+            if b is None or not b.is_const():
+                return False
+            a = self.get(REG64[o[0]])
+            self.r[REG64[o[0]]] = scale(a, 1 << (b.c % 64)) if mn in ('shl', 'sal') else V.srl(a, b.c % 64)
             return True
         if mn == 'xchg' and len(o) == 2 and o[0] in REG64 and o[1] in REG64:
             a, b = REG64[o[0]], REG64[o[1]]
@@ -521,7 +561,16 @@ def rule_ss_hsem(ctx, R):
 # memory-form integer instructions and ISTORE
 
 def and_(x, y):
-    """and with merging of nested constant masks: and(and(a, c1), c2) = and(a, c1 & c2)"""
+    """and with merging of nested constant masks: and(and(a, c1), c2) = and(a, c1 & c2); under a mask below 2^k only the value mod 2^k of the other operand matters,
+    so its linear form is reduced mod 2^k (x + (imm & (2^k - 1)) and x + sext(imm) become the same term)"""
+    for a_, b_ in ((x, y), (y, x)):
+        if b_.is_const() and not a_.is_const():
+            k = b_.c.bit_length()
+            if k < 64:
+                mod = 1 << k
+                red = Lin(a_.c % mod, {t_: c_ % mod for t_, c_ in a_.t.items()})
+                if red != a_:
+                    return and_(red, b_)
     for a_, b_ in ((x, y), (y, x)):
         if b_.is_const():
             at = V.single_atom(a_)
@@ -657,7 +706,7 @@ def rule_mem_hsem(ctx, R):
             for s in range(8):
                 for modmem in (0, 1, 3):
                     for modcond in ((0, 13, 14, 15) if name == 'ISTORE' else (0,)):
-                        imms = MEM_IMMS if (d + s + modmem) % 3 == 0 or s == d else MEM_IMMS[5:8]
+                        imms = MEM_IMMS if s == d or (d + s + modmem) % (3 if getattr(ctx, 'tier', 'quick') == 'thorough' else 7) == 0 else MEM_IMMS[5:7]
                         for imm in imms:
                             mod = modmem | (modcond << 4)
                             fields = {'dst': KB.const(8, d), 'src': KB.const(8, s), 'mod': KB.const(8, mod)}
@@ -682,8 +731,8 @@ def rule_mem_hsem(ctx, R):
                 break
             pos = off + nb
             if not m.step(mn, ops):
-                if re.match(r'^(j\w+|call|ret|push|pop|int\d?|hlt|ud2|syscall|f\w+|v\w+|p\w+|\w+pd|\w+ps|\w+sd|\w+ss|ldmxcsr|stmxcsr)$', mn):
-                    bad = 'after `%s` the handler emits `%s %s`' % (' ; '.join(tr[:-1]), mn, ops)
+                if re.match(r'^(j\w+|call|ret|push|pop|int\d?|hlt|ud2|syscall|f\w+|v\w+|p\w+|\w+pd|\w+ps|\w+sd|\w+ss|ldmxcsr|stmxcsr)$', mn) or re.search(r'\b(rip|rsp|rbp|rbx|rdi)\b', ops):
+                    bad = 'after `%s` the handler emits `%s %s`: not an access to the scratchpad through rsi and the masked address' % (' ; '.join(tr[:-1]), mn, ops)
                     break
                 raise AnalysisBroken('X86-MEM-HSEM: instruction `%s %s` emitted by %s is outside the modelled subset' % (mn, ops, h['q']))
         if bad is None and pos != len(code):
@@ -717,3 +766,119 @@ def rule_mem_hsem(ctx, R):
             R.ok(inst, where)
     if n < 2500:
         raise AnalysisBroken('X86-MEM-HSEM: only %d cases evaluated' % n)
+
+
+# ---------------------------------------------------------------------------------------------------------------------------
+# CFROUND: bit routing
+
+def rule_cfround(ctx, R, FI):
+    """[X86-CFR-BITS] what the bytes of h_CFROUND do to MXCSR, bit by bit"""
+    F, hs = jit.handlers(ctx, 'x86')
+    cls = 'randomx::JitCompilerX86'
+    R.rule('X86-CFR-BITS', 'the bytes h_CFROUND emits load MXCSR with the interpreter\'s reset word in which bits 13-14 (rounding control) are bits imm32 and imm32+1 (mod 64) of the source register -- i.e. (ror(src, imm32) & 3) -- '
+           'unconditionally in v1 and, in v2, exactly when bits imm32+2 .. imm32+5 of the source are all zero ((ror(src, imm32) & 60) == 0); nothing else is written; decided by routing symbolic bits of the source '
+           'through the decoded instructions for every src, all 64 rotation counts and both versions', min_instances=1000)
+    R.saw(config='K0', unit='src/jit_compiler_x86.cpp')
+    from rules.driver import reset_word, CSR_CTRL
+    _f, _kb, _n = reset_word(FI)
+    if (_kb.ones | _kb.zeros) & CSR_CTRL != CSR_CTRL:
+        raise AnalysisBroken('X86-CFR-BITS: the interpreter reset word is not a constant (see FP-RESETWORD)')
+    dflt = _kb.ones & CSR_CTRL
+    h = hs['CFROUND'].f
+    R.saw(fn=h['q'])
+    where = '%s:%d' % (h['file'], h['line'])
+    v2flag = FI.enumerator('RANDOMX_FLAG_V2')
+    # the member that holds the VM flags: the one tested against the V2 enumerator in the handler
+    flag_keys = set()
+    for x in astq.walk(h['body']):
+        if x['k'] == 'Mem' and x.get('dk') == 'Field' and 'lags' in (x.get('m') or ''):
+            flag_keys.add(show(x))
+    cases = []
+    for v2 in (0, 1):
+        for s_ in range(8):
+            for imm in list(range(64)) + [0xFFFFFFC0 | 5, 0x80000000 | 17, 0x7FFFFF80 | 63]:
+                fields = {'dst': KB.const(8, (s_ + 1) % 8), 'src': KB.const(8, s_), 'mod': KB.const(8, 0)}
+                ov = {'randomx::Instruction::getImm32': KB.const(32, imm)}
+                ex = X86Exec(F, cls, fields, ov)
+                ex.env_extra = {k_: KB.const(32, v2flag if v2 else 0) for k_ in flag_keys}
+                ex.run(h, [None, KB.const(32, 7)])
+                cases.append((v2, s_, imm, tuple(ex.bytes)))
+    dis = disassemble([c[-1] for c in cases if c[-1]])
+    n = 0
+    for v2, s_, imm, code in cases:
+        n += 1
+        bad = None
+        rax = None          # list of 64 bit descriptors: 0 / 1 / ('b', k)
+        loads = []          # (guard: list of bits that must all be zero, 32 bit descriptors)
+        stack = None
+        skip_until = None
+        guard = []
+        tr = []
+        pos = 0
+        for mn, ops, nb, off in dis.get(code, []):
+            tr.append((mn + ' ' + ops).strip())
+            if off != pos or mn == '(bad)':
+                bad = 'bytes do not decode to whole instructions (%s)' % ' ; '.join(tr)
+                break
+            pos = off + nb
+            o = [x.strip() for x in ops.split(',')] if ops else []
+            in_skipped = skip_until is not None and off < skip_until
+            if skip_until is not None and off >= skip_until:
+                if off != skip_until:
+                    bad = 'the conditional jump lands inside an instruction'
+                    break
+                skip_until = None
+                guard_after = []
+            g_ = list(guard) if in_skipped else []
+            if mn == 'mov' and len(o) == 2 and o[0] == 'rax' and o[1] in REG64 and 8 <= REG64[o[1]] < 16:
+                rax = [('b', REG64[o[1]] - 8, k) for k in range(64)]
+            elif mn in ('rol', 'ror') and len(o) == 2 and o[0] == 'rax' and rax is not None:
+                c = int(o[1], 0) % 64
+                rax = [rax[(k - c) % 64] for k in range(64)] if mn == 'rol' else [rax[(k + c) % 64] for k in range(64)]
+            elif mn == 'test' and len(o) == 2 and o[0] == 'eax' and rax is not None:
+                m_ = int(o[1], 0)
+                tested = [rax[k] for k in range(32) if (m_ >> k) & 1]
+            elif mn in ('jne', 'jnz') and rax is not None:
+                tgt = int(ops.split()[0], 16) % SLOT if re.match(r'^0x[0-9a-f]+', ops) else None
+                if tgt is None or tgt <= off:
+                    bad = 'unexpected jump `%s %s`' % (mn, ops)
+                    break
+                skip_until = tgt
+                guard = list(tested)
+            elif mn in ('and', 'or') and len(o) == 2 and o[0] == 'eax' and rax is not None:
+                m_ = int(o[1], 0) & 0xffffffff
+                lo = [(rax[k] if (m_ >> k) & 1 else 0) if mn == 'and' else (1 if (m_ >> k) & 1 else rax[k]) for k in range(32)]
+                rax = lo + [0] * 32
+            elif mn == 'mov' and len(o) == 2 and o[0].replace(' ', '') == 'DWORDPTR[rsp]' and o[1] == 'eax' and rax is not None:
+                stack = list(rax[:32])
+            elif mn == 'ldmxcsr' and stack is not None:
+                loads.append((g_, list(stack)))
+            elif mn == 'nop':
+                pass
+            else:
+                bad = 'instruction `%s %s` is not part of a rounding-mode change' % (mn, ops)
+                break
+        if bad is None and pos != len(code):
+            bad = 'bytes do not decode to whole instructions'
+        if bad is None:
+            c = imm & 63
+            want_bits = [(dflt >> k) & 1 for k in range(32)]
+            want_bits[13] = ('b', s_, c % 64)
+            want_bits[14] = ('b', s_, (c + 1) % 64)
+            want_guard = sorted(('b', s_, (c + j) % 64) for j in (2, 3, 4, 5)) if v2 else []
+            if len(loads) != 1:
+                bad = '%d MXCSR loads' % len(loads)
+            else:
+                g_, bits = loads[0]
+                if sorted(g_, key=str) != sorted(want_guard, key=str):
+                    bad = 'MXCSR is loaded when %s are zero; the specification says %s' % ([('bit %d' % x[2]) for x in g_] or 'always', [('bit %d' % x[2]) for x in want_guard] or 'always')
+                elif bits != want_bits:
+                    diff = [k for k in range(32) if bits[k] != want_bits[k]]
+                    bad = 'MXCSR bits %s are %s, expected %s' % (diff, [bits[k] for k in diff][:4], [want_bits[k] for k in diff][:4])
+        inst = 'CFROUND %s src=r%d imm32=%#x' % ('v2' if v2 else 'v1', s_, imm)
+        if bad:
+            R.violation(inst, where, expected='MXCSR = reset word with bits 13-14 = ror(src, imm32) & 3%s' % (', only if (ror(src, imm32) & 60) == 0' if v2 else ''), found=bad + ' [' + ' ; '.join(tr) + ']')
+        else:
+            R.ok(inst, where)
+    if n < 1000:
+        raise AnalysisBroken('X86-CFR-BITS: only %d cases' % n)
